@@ -929,14 +929,27 @@ def no_writes_through_get(ctx, rule, classes=('Slicer', 'PlateSlicer', 'Plate'))
                 pairs = list(zip(tg.elts, val.elts)) if isinstance(tg, ast.Tuple) and isinstance(val, ast.Tuple) and \
                     len(tg.elts) == len(val.elts) else [(tg, val)]
                 for t_, v_ in pairs:
+                    # `s.get()`, also behind methods that hand out a view of it (`s.get().reshape(1, 1)`)
+                    while isinstance(v_, ast.Call) and isinstance(v_.func, ast.Attribute) and \
+                            v_.func.attr in ('reshape', 'ravel', 'view', 'squeeze', 'transpose') and isinstance(v_.func.value, ast.Call):
+                        v_ = v_.func.value
                     if isinstance(t_, ast.Name) and isinstance(v_, ast.Call) and isinstance(v_.func, ast.Attribute) and \
                             v_.func.attr == 'get' and not v_.args and not v_.keywords:
-                        got[t_.id] = x.lineno
+                        # a selection whose shape was tested to be a pair (rows, columns) is a rectangle: get() is a view of the
+                        # plate there (a list of wells has a one-element shape and is refused by that test)
+                        recv = ast.unparse(v_.func.value)
+                        rect = any(isinstance(g, ast.If) and _precedes_in_block(g, x) and any(isinstance(b, ast.Raise) for b in g.body) and
+                                   isinstance(g.test, ast.Compare) and len(g.test.ops) == 1 and isinstance(g.test.ops[0], ast.NotEq) and
+                                   ast.unparse(g.test.left) == f"{recv}.shape" and isinstance(g.test.comparators[0], ast.Tuple) and
+                                   len(g.test.comparators[0].elts) == 2 for g in ast.walk(fi.node))
+                        if not rect:
+                            got[t_.id] = x.lineno
         if not got:
             continue
         for x in ast.walk(fi.node):
             if isinstance(x, (ast.Assign, ast.AugAssign)):
                 tg = x.targets if isinstance(x, ast.Assign) else [x.target]
+                tg = [e for t in tg for e in (t.elts if isinstance(t, (ast.Tuple, ast.List)) else [t])]
                 for t in tg:
                     if isinstance(t, ast.Subscript) and isinstance(t.value, ast.Name) and t.value.id in got:
                         bad.append((fi, x.lineno, t.value.id, 'element assignment'))
@@ -1193,4 +1206,94 @@ def _display_digits(d, assigns, depth=0):
         return True
     if isinstance(d, ast.Name):
         return any(_display_digits(v, assigns, depth + 1) for v in assigns.get(d.id, []))
+    return False
+
+
+STORED_FIELDS = ('volume', 'contents', 'max_volume', 'max_volume_per_well')
+
+
+def observers_convert_to_the_requested_unit(ctx, rule, classes=('Container', 'Plate', 'PlateSlicer')):
+    """An observer that is asked for a unit answers in that unit: every stored field (`.volume`, `.contents[..]`, a
+    capacity - all kept in the configured storage units) that reaches its return value does so inside a call that is also
+    given the requested unit (a conversion, or another observer).  A stored field returned or summed as it is equals the
+    answer only while the storage unit happens to be the requested one (`if unit == 'uL': return sum of .volume`)."""
+    model = ctx.model.plain()
+    n = 0
+    for fi in model.funcs.values():
+        if fi.mod.rel != 'pyplate/pyplate.py' or fi.parent is not None or fi.cls is None or fi.cls.name not in classes:
+            continue
+        if not fi.name.startswith('get_') or 'unit' not in fi.all_param_names():
+            continue
+        unit_names = {'unit'}
+        changed = True
+        while changed:
+            changed = False
+            for st in ast.walk(fi.node):
+                if isinstance(st, ast.Assign) and any(isinstance(y, ast.Name) and y.id in unit_names for y in ast.walk(st.value)):
+                    for t in st.targets:
+                        for nm in ast.walk(t):
+                            if isinstance(nm, ast.Name) and nm.id not in unit_names and isinstance(st.value, ast.Call) and \
+                                    ('parse' in ast.unparse(st.value.func) or 'split' in ast.unparse(st.value.func)):
+                                unit_names.add(nm.id)
+                                changed = True
+        # values computed before the return: name -> expression
+        assigns = {}
+        for st in ast.walk(fi.node):
+            if isinstance(st, ast.Assign) and len(st.targets) == 1 and isinstance(st.targets[0], ast.Name):
+                assigns.setdefault(st.targets[0].id, []).append(st.value)
+        bad = []
+
+        def raw_reads(e, depth=0):
+            out = []
+            for x in ast.walk(e):
+                if isinstance(x, ast.Attribute) and x.attr in STORED_FIELDS and isinstance(x.ctx, ast.Load):
+                    p, covered = getattr(x, 'parent', None), False
+                    while p is not None and p is not fi.node:
+                        if isinstance(p, ast.Call) and any(isinstance(y, ast.Name) and y.id in unit_names
+                                                           for a_ in list(p.args) + [k.value for k in p.keywords] for y in ast.walk(a_)
+                                                           if a_ is not x):
+                            # the unit must be an argument beside the one the field sits in
+                            holder = [a_ for a_ in list(p.args) + [k.value for k in p.keywords] if any(y is x for y in ast.walk(a_))]
+                            others = [a_ for a_ in list(p.args) + [k.value for k in p.keywords] if a_ not in holder]
+                            if any(isinstance(y, ast.Name) and y.id in unit_names for a_ in others for y in ast.walk(a_)) or not holder:
+                                covered = True
+                                break
+                        p = getattr(p, 'parent', None)
+                    if not covered:
+                        out.append(x)
+                elif isinstance(x, ast.Name) and isinstance(x.ctx, ast.Load) and depth < 3 and x.id in assigns:
+                    for v in assigns[x.id]:
+                        if v.lineno < x.lineno:
+                            out.extend(raw_reads(v, depth + 1))
+            return out
+        rets = [r for r in ast.walk(fi.node) if isinstance(r, ast.Return) and r.value is not None]
+        for r in rets:
+            for x in raw_reads(r.value):
+                # a test of the field (`if self.volume == 0`) is no part of the value; ast.walk over the value does not reach tests
+                bad.append((r, x))
+        n += 1
+        ctx.ob(rule, fi, (bad[0][1].lineno if bad else fi.node.lineno),
+               f"{fi.qualname}: every stored field in the answer is converted to the requested unit", not bad,
+               fact=(f"`{ast.unparse(bad[0][1])}` reaches `{ast.unparse(bad[0][0])[:70]}` without a conversion that is given the unit"
+                     if bad else f"{len(rets)} return(s); stored fields only inside calls that receive the unit"),
+               why='the answer is in the storage unit: right only for the storage unit the shortcut was written for',
+               key=f"unconverted stored field in {fi.qualname}")
+    from .common import floor as _floor
+    _floor(ctx, 'observers that take a unit', n, 4)
+
+
+def _precedes_in_block(gate, stmt):
+    """Is `gate` an earlier statement of the block that holds `stmt`, or of a block that encloses it?  (Then every path to
+    `stmt` has passed the gate.)"""
+    cur = stmt
+    while cur is not None:
+        par = getattr(cur, 'parent', None)
+        if par is None:
+            return False
+        for fld in ('body', 'orelse', 'finalbody'):
+            blk = getattr(par, fld, None)
+            if isinstance(blk, list) and cur in blk:
+                if gate in blk[:blk.index(cur)]:
+                    return True
+        cur = par
     return False
